@@ -35,7 +35,12 @@ import (
 	"go.uber.org/zap"
 	"google.golang.org/grpc"
 
+	"github.com/tikv/pd/pkg/encryption"
+	"github.com/tikv/pd/server/election"
+	"github.com/tikv/pd/server/encryptionkm"
+
 	"pdverif/internal/coqfmt"
+	"pdverif/internal/etcdx"
 	"pdverif/internal/res"
 	"pdverif/internal/rng"
 )
@@ -81,6 +86,7 @@ type Case struct {
 	FailIDs    []uint64 `json:",omitempty"` // cut: regions whose SaveRegion fails on the follower
 	FCached    []Region `json:",omitempty"` // chain: regions the follower cached while it was the leader itself (heartbeats, term FTerm)
 	FTerm      uint64   `json:",omitempty"`
+	Enc        bool     `json:",omitempty"` // the follower encrypts region keys at rest (security.encryption)
 	SlowLoad   bool     `json:",omitempty"` // chain: the follower's local store answers range reads slowly (it is still loading when the leader is reachable)
 	FStored    []Region `json:",omitempty"` // chain: metas in the follower's own region storage before it starts
 	Msgs       []Msg    `json:",omitempty"`
@@ -506,13 +512,68 @@ type node struct {
 	cancel context.CancelFunc
 }
 
-func newNode(name string, persisted *uint64, useRS bool) *node {
+// encryption at rest: one real key manager (server/encryptionkm: master key file, data key in an embedded etcd) for the run
+var (
+	kmOnce sync.Once
+	kmInst *encryptionkm.KeyManager
+)
+
+func keyManager() *encryptionkm.KeyManager {
+	kmOnce.Do(func() {
+		e, err := etcdx.Start()
+		if err != nil {
+			panic(err)
+		}
+		cli, _, err := e.NewClient()
+		if err != nil {
+			panic(err)
+		}
+		dir, err := os.MkdirTemp("", "c16key")
+		if err != nil {
+			panic(err)
+		}
+		keyFile := path.Join(dir, "key")
+		if err := os.WriteFile(keyFile, []byte("8fd7e3e917c170d92f3e51a981dd7bc8fba11f3df7d8df994842f6e86f69b530"), 0o600); err != nil {
+			panic(err)
+		}
+		cfg := &encryption.Config{DataEncryptionMethod: "aes128-ctr",
+			MasterKey: encryption.MasterKeyConfig{Type: "file", MasterKeyFileConfig: encryption.MasterKeyFileConfig{FilePath: keyFile}}}
+		if err := cfg.Adjust(); err != nil {
+			panic(err)
+		}
+		m, err := encryptionkm.NewKeyManager(cli, cfg)
+		if err != nil {
+			panic(err)
+		}
+		leader := election.NewLeadership(cli, "c16_leader", "c16")
+		if err := leader.Campaign(30000000, ""); err != nil {
+			panic(err)
+		}
+		if err := m.SetLeadership(leader); err != nil {
+			panic(err)
+		}
+		if _, k, err := m.GetCurrentKey(); err != nil || k == nil {
+			panic(fmt.Sprint("no data key: ", err))
+		}
+		kmInst = m
+	})
+	return kmInst
+}
+
+func newNode(name string, persisted *uint64, useRS bool) *node { return newNodeEnc(name, persisted, useRS, false) }
+
+// newNodeEnc: with enc the node's storage encrypts the region keys at rest (a non-default configuration of PD)
+func newNodeEnc(name string, persisted *uint64, useRS, enc bool) *node {
 	dir, err := os.MkdirTemp("", "c16-"+name+"-")
 	if err != nil {
 		panic(err)
 	}
+	var km *encryptionkm.KeyManager
+	if enc {
+		km = keyManager()
+	}
 	ctx, cancel := context.WithCancel(context.Background())
-	rs, err := core.NewRegionStorage(ctx, filepath.Join(dir, "region-meta"), nil)
+	rs, err := core.NewRegionStorage(ctx, filepath.Join(dir, "region-meta"), km)
 	if err != nil {
 		panic(err)
 	}
@@ -521,7 +582,7 @@ func newNode(name string, persisted *uint64, useRS bool) *node {
 			panic(err)
 		}
 	}
-	st := core.NewStorage(kv.NewMemoryKV(), core.WithRegionStorage(rs))
+	st := core.NewStorage(kv.NewMemoryKV(), core.WithRegionStorage(rs), core.WithEncryptionKeyManager(km))
 	if useRS {
 		st.SwitchToRegionStorage()
 	}
@@ -1006,7 +1067,7 @@ func genCut(r *rng.R, k int) Case {
 // If pending != nil the follower must be in sync (lp == fp) and `pending` goes through RunServer.
 func runSync(R *res.Result, c Case) Case {
 	leader := newNode("leader", c.LP, true)
-	follower := newNode("follower", c.FP, c.UseRS)
+	follower := newNodeEnc("follower", c.FP, c.UseRS, c.Enc)
 	for _, r := range c.Regions {
 		leader.srv.bc.PutRegion(r.info())
 	}
@@ -1340,7 +1401,7 @@ func u64p(v uint64) *uint64 { return &v }
 
 func genSync(r *rng.R, k int) Case {
 	sizes := []int{0, 1, 2, 50, 99, 100, 101, 150, 199, 200, 201, 230, 250}
-	c := Case{Kind: "sync", UseRS: r.Pct(60)}
+	c := Case{Kind: "sync", UseRS: r.Pct(60), Enc: k%5 == 2}
 	switch mode := k % 8; {
 	case mode <= 4: // full synchronisation
 		n := sizes[(k/8*5+mode)%len(sizes)]
@@ -1386,7 +1447,7 @@ func genSync(r *rng.R, k int) Case {
 // a follower that already holds older versions of some of the leader's regions, a full synchronisation, then broadcasts
 func genChain(r *rng.R, k int) Case {
 	sizes := []int{1, 3, 60, 100, 101, 150, 230}
-	c := Case{Kind: "chain", UseRS: r.Pct(60)}
+	c := Case{Kind: "chain", UseRS: r.Pct(60), Enc: k%3 == 0}
 	n := sizes[k%len(sizes)]
 	c.Regions = genRegions(r, n, []int{1, 1, 2}[r.Intn(3)], 0)
 	c.LP = u64p(uint64(1 + r.Intn(100000)))
